@@ -7,6 +7,14 @@
 //     rename  unlink  access                    (not used by the pinned code: present so that a
 //                                                 writer which starts to use them stays inside the simulation)
 //     realloc                                   (growth of cfitsio memory files)
+//     open open64 creat read write pread pwrite pread64 pwrite64 lseek lseek64 close fsync fdatasync
+//                                               (POSIX descriptor I/O: not used by the pinned code either; a
+//                                                 writer that serialises to memory and then write(2)s the buffer,
+//                                                 or that fsyncs a temporary file before renaming it, stays
+//                                                 inside the simulation. Descriptors of /sim files are numbers
+//                                                 above 0x3f000000; every other descriptor passes through.
+//                                                 At this level short writes are *visible* to the caller, as
+//                                                 they are on a real descriptor.)
 //
 // A path below "/sim/" names an in-memory file. fopen64() of such a path
 // returns an fopencookie() stream, so cfitsio's driver *and glibc's stdio
@@ -53,7 +61,7 @@ namespace disk {
 
 typedef std::vector<uint8_t> Bytes;
 
-enum OpKind { OP_OPEN = 0, OP_WRITE, OP_READ, OP_SEEK, OP_TRUNCATE, OP_REMOVE, OP_CLOSE, OP_RENAME, OP_NKINDS };
+enum OpKind { OP_OPEN = 0, OP_WRITE, OP_READ, OP_SEEK, OP_TRUNCATE, OP_REMOVE, OP_CLOSE, OP_RENAME, OP_SYNC, OP_NKINDS };
 const char *kind_name(OpKind k);              // "open","write","read","seek","truncate","remove","close"
 bool kind_from_name(const std::string &s, OpKind &k);
 
@@ -84,6 +92,7 @@ struct Op {
 //   on = "remove": EACCES      on = "open":  ENOENT EACCES EMFILE
 //   on = "rename": ENOSPC EACCES EXDEV (the file keeps its old name)
 //   on = "truncate": EIO ENOSPC
+//   on = "sync": EIO ENOSPC (fsync / fdatasync)
 // persistent: the fault hits the at-th and every later operation of the kind.
 struct Fault {
 	std::string on;
